@@ -373,20 +373,23 @@ def DownloadStream.open (st : Store) (id : Nat) : Except Err DownloadStream :=
       | (_, some e) => .error e
       | (s, none) => .ok s
 
+/-- the tail of Seek once the target position is computed: seek(position), then update position -/
+def DownloadStream.seekPos (st : Store) (s : DownloadStream) (position : Int) : DownloadStream × Nat × Option Err :=
+  if position < 0 then (s, 0, some .negPos)
+  else
+    match s.seekTo st position.toNat with
+    | (s, some e) => (s, 0, some e)
+    | (s, none) => ({ s with position := position.toNat }, position.toNat, none)
+
 /-- DownloadStream.Seek; returns (stream, position, err).  An unknown whence leaves `position = 0`. -/
 def DownloadStream.seek (st : Store) (s : DownloadStream) (offset whence : Int) : DownloadStream × Nat × Option Err :=
   if s.closed then (s, 0, some .closed)
   else
-    let position : Int :=
-      if whence = 0 then offset
-      else if whence = 1 then wrap64 (s.position + offset)
-      else if whence = 2 then wrap64 (s.file.length + offset)
-      else 0
-    if position < 0 then (s, 0, some .negPos)
-    else
-      match s.seekTo st position.toNat with
-      | (s, some e) => (s, 0, some e)
-      | (s, none) => ({ s with position := position.toNat }, position.toNat, none)
+    s.seekPos st
+      (if whence = 0 then offset
+       else if whence = 1 then wrap64 (s.position + offset)
+       else if whence = 2 then wrap64 (s.file.length + offset)
+       else 0)
 
 /-- DownloadStream.Skip -/
 def DownloadStream.skip (st : Store) (s : DownloadStream) (n : Int) : DownloadStream × Nat × Option Err :=
@@ -410,23 +413,21 @@ def DownloadStream.next (s : DownloadStream) : DownloadStream × Option Err :=
 def DownloadStream.take (s : DownloadStream) (k : Nat) : DownloadStream :=
   { s with buffer := s.buffer.drop k, position := s.position + k }
 
-/-- the loop of Read (`want` = len(buf) − read); returns the bytes copied from here on -/
+/-- the loop of Read (`want` = len(buf) − read); returns the bytes copied from here on.
+    Each iteration: fetch the next chunk if the buffer is empty, then copy. -/
 def readLoop : Nat → DownloadStream → Nat → Nat → DownloadStream × Bytes × Option Err
   | 0, s, _, _ => (s, [], some .diverged)
   | fuel + 1, s, want, read =>
     if want = 0 then (s, [], none)
-    else if s.buffer.length = 0 then
-      match s.next with
-      | (s, some .eof) => (s, [], if read = 0 then some .eof else none)
-      | (s, some e) => (s, [], some e)
-      | (s, none) =>
-        let k := min want s.buffer.length
-        let r := readLoop fuel (s.take k) (want - k) (read + k)
-        (r.1, s.buffer.take k ++ r.2.1, r.2.2)
     else
-      let k := min want s.buffer.length
-      let r := readLoop fuel (s.take k) (want - k) (read + k)
-      (r.1, s.buffer.take k ++ r.2.1, r.2.2)
+      let nx := if s.buffer.length = 0 then s.next else (s, none)
+      match nx.2 with
+      | some .eof => (nx.1, [], if read = 0 then some .eof else none)   -- EOF only if nothing was read
+      | some e => (nx.1, [], some e)
+      | none =>
+        let k := min want nx.1.buffer.length
+        let r := readLoop fuel (nx.1.take k) (want - k) (read + k)
+        (r.1, nx.1.buffer.take k ++ r.2.1, r.2.2)
 
 def DownloadStream.cursorLen (s : DownloadStream) : Nat :=
   match s.cursor with
